@@ -8,7 +8,7 @@ from vlib.refcompile import proj_c06, proj_c07, proj_c08, proj_c10, ref_compile
 
 from . import pickles_common as pc
 
-URI = "dir/some file.feature"
+URI = "./dir/some file.feature"
 
 
 def proj_c09(pk):
